@@ -366,6 +366,12 @@ pub fn fine_amount(units: i64) -> i128 {
     let m = (units + FINE / 2).rem_euclid(FINE) - FINE / 2;
     ((n as i128) << 124).wrapping_add(m as i128)
 }
+/// distance of a model number of the i128-edge regime from the nearest whole unit; a driver ends a run in which
+/// this grows (the embedding is exact only while small parts stay far below FINE / 2)
+pub fn fine_small_part(x: i64) -> i64 {
+    ((x + FINE / 2).rem_euclid(FINE) - FINE / 2).abs()
+}
+
 /// inverse of `fine_amount`; values off the lattice are logged as `bad`
 pub fn fine_units(v: i128, bad: i64) -> Value {
     let n = (v >> 124) + ((v >> 123) & 1);
